@@ -30,6 +30,8 @@ var selTable = map[string][][]string{
 	"Authorization": {{`OAuth oauth_consumer_key="app", oauth_token="alice"`}, {`OAuth oauth_consumer_key="app", oauth_token="bob"`}, {`Digest realm="api", username="alice", nonce="n1"`}, {`Digest realm="api", username="bob", nonce="n1"`}, {"Bearer tok1"}, {"Bearer tok2"}, {""}},
 }
 
+var knownFindingValue = map[string]bool{"9d863088ea8a569f": true, "9170dae036e4c82e": true, "br;q=0": true}
+
 var spellingMeaning = func() map[string]string {
 	m := map[string]string{}
 	for f, ms := range selTable {
@@ -131,6 +133,7 @@ type bias struct {
 	pOddURL              int
 	pStall               int
 	pClockStep           int
+	kfValues             bool
 	pPoison              int
 	pPartial             int
 	pRespell             int
@@ -458,6 +461,11 @@ func (g *gen) selHeaders(res *Resource, b *bias) [][2]string {
 				g.selOff[f] = off
 			}
 			m := ms[off+g.IntN(min(len(ms)-off, 3))]
+			if knownFindingValue[m[0]] && !b.kfValues {
+				// the values behind the two known findings (known_findings.json) are sent in C04's own profile
+				// only: elsewhere their side effects would be charged to other properties
+				m = ms[0]
+			}
 			if f == "Authorization" && g.chance(50) {
 				m = ms[2+g.IntN(4)]
 			}
@@ -753,6 +761,7 @@ var profiles = map[string]func(b *bias, g *gen){
 		b.pDateOdd = 20 // among others: a 304 without Date for a response that had one
 	},
 	"vary": func(b *bias, g *gen) {
+		b.kfValues = true
 		b.pVary, b.pVaryStar, b.pVaryFlip, b.pSelHdr = 90, 6, 25, 90
 		b.resources, b.ops = [2]int{1, 1}, [2]int{5, 16}
 		b.lifetimes = []int64{60, 300, 300, 5}
